@@ -124,7 +124,11 @@ Rec(a, x) == [act |-> a, arg |-> x]
 Perturbations == {"Restart", "Query", "SetEnv", "UnsetEnv"}
 
 NoGate == [on |-> FALSE, app |-> NoVersion, gov |-> NoVersion]
-Closed == gate.on /\ Older(gate.app, gate.gov)
+\* the gate is closed for software that is older than the completed upgrade, and for software of another [major].[minor] line
+\* than the completed upgrade (x/paloma: "app needs to be in the [major].[minor] space": a binary of another line is the wrong
+\* software for the chain state, in either direction); a NEWER PATCH level of the same line must never be stopped
+SameLine(a, g) == a.v[1] = g.v[1] /\ a.v[2] = g.v[2]
+Closed == gate.on /\ (Older(gate.app, gate.gov) \/ ~SameLine(gate.app, gate.gov))
 Init == /\ height = Base /\ txlog = <<>> /\ queued = "idle" /\ gate = NoGate /\ halted = FALSE
         /\ env = {} /\ restarts = 0 /\ nqueries = 0
         /\ last = Rec("Init", <<>>)
@@ -141,7 +145,7 @@ Block(txs) ==
 \* governance completed the upgrade gov while the node runs the software app ...
 Gate(app, gov) == /\ ~gate.on /\ ~halted /\ gate' = [on |-> TRUE, app |-> app, gov |-> gov]
                   /\ UNCHANGED <<height, txlog, queued, halted, nodeVars>> /\ last' = Rec("Gate", <<>>)
-\* ... only software OLDER than the completed upgrade stops: its next block is not finalised (x/paloma CheckChainVersion)
+\* ... software older than the completed upgrade (or of another major.minor line) stops: its next block is not finalised
 Halt == /\ Closed /\ ~halted /\ halted' = TRUE
         /\ UNCHANGED <<height, txlog, queued, gate, nodeVars>> /\ last' = Rec("Halt", <<>>)
 
@@ -169,7 +173,7 @@ StateIsFunctionOfHistory == /\ height = Base + Len(txlog) /\ queued = StageOfLog
 
 \* C09: no reachable state disables the next block except the version gate
 NoAbort == (~Closed /\ ~halted) => \A txs \in BlockChoices : ENABLED Block(txs)
-\* a halt only for software that is semantically older than the completed upgrade
+\* a halt only for software that is semantically older than the completed upgrade or of another major.minor line
 OnlyGateHalts == halted => Closed
 \* every module is reached by a template or a hostile kind
 ASSUME CatalogueCoversModules == {"consensus", "evm", "paloma", "scheduler", "skyway", "tokenfactory", "treasury", "valset"} \subseteq Modules
